@@ -294,18 +294,17 @@ class EList(ECollection, list):
         self.owner._isset[self.feature] = None
 
     def extend(self, sublist):
+        sublist = list(sublist)  # iterated more than once
         check = self.check
+        for value in sublist:
+            check(value)
         if self.is_ref:
             _update_container = self._update_container
             _update_opposite = self._update_opposite
             owner = self.owner
             for value in sublist:
-                check(value)
                 _update_container(value)
                 _update_opposite(value, owner)
-        else:
-            for value in sublist:
-                check(value)
 
         super().extend(sublist)
         self.owner.notify(Notification(new=sublist,
@@ -381,17 +380,18 @@ class EAbstractSet(ECollection):
     append = add
 
     def update(self, others):
+        others = list(others)  # iterated more than once
         check = self.check
+        for value in others:
+            check(value)
         add = super().add
         if self.is_ref:
             for value in others:
-                check(value)
                 add(value)
                 self._update_container(value)
                 self._update_opposite(value, self.owner)
         else:
             for value in others:
-                check(value)
                 add(value)
         self.owner._isset[self.feature] = None
         self.owner.notify(Notification(new=others,
